@@ -148,7 +148,7 @@ def run(ck):
     proved = ck.prove()
     cfgbits = c13.read_cfg()
     ck.extra['unrecognised_sites'] = c13.unrecognised_sites(ck)
-    ck.extra['cfg_of_current_source'] = dict(zip(['fx_sec', 'fx_slen', 'fx_fnrange', 'fx_div', 'fx_substr', 'fx_print', 'fx_arr', 'fx_npop', 'fx_ipop'], cfgbits))
+    ck.extra['cfg_of_current_source'] = dict(zip(['fx_sec', 'fx_slen', 'fx_fnrange', 'fx_div', 'fx_substr', 'fx_print', 'fx_arr', 'fx_npop', 'fx_ipop', 'fx_strict'], cfgbits))
     ref = ck.nvref('c08')
     ns = list(range(0, 65)) if ck.thorough else [0, 1, 2, 3, 5, 8]
     kinds = ['get', 'set', 'pop', 'remove']
